@@ -111,7 +111,7 @@ Proof. induction n; cbn; auto. Qed.
 Lemma mb_merge_pins (c : cab P) i w :
   Permutation (concat (c_wires (mb_merge c i w))) (concat (c_wires c) ++ w) /\ c_wires (mb_merge c i w) <> [].
 Proof.
-  unfold mb_merge. destruct (N.ltb (c_lower c) i).
+  unfold mb_merge. destruct (N.leb (c_lower c) i).
   - destruct (N.ltb i _); cbn.
     + split; [apply concat_merge_in|]. destruct (firstn _ _); discriminate.
     + split.
